@@ -65,3 +65,11 @@ func (v *VerifLexSession) StmtExecuteRaw(data []byte) error {
 	_, err := v.se.handleStmtExecute(reqCtx, data)
 	return err
 }
+
+// DemoteToReadOnly makes the session's user read-only in the namespace the
+// session looks up for every statement, as a namespace reload does while the
+// session stays open; what the session cached at login (se.userPriv) is left
+// as it was.
+func (v *VerifLexSession) DemoteToReadOnly() {
+	v.se.GetNamespace().userProperties[v.se.user].RWFlag = models.ReadOnly
+}
